@@ -171,6 +171,45 @@ def P29(m, R):
 _TOK = ('digits', 'padded digits', 'other text', 'empty')
 
 
+class _LocalHelper:
+    """a nested def used as the convert-or-keep helper of to_list"""
+    def __init__(self, node):
+        self.node = node
+        self.name = node.name
+        self.body = [b for b in node.body if not (isinstance(b, ast.Expr) and isinstance(b.value, ast.Constant))]
+        self.params = [a.arg for a in node.args.args]
+        self.self_name = None
+
+    def own_params(self):
+        return list(self.params)
+
+
+def _conv_helper(m, tl, name):
+    """the one-argument helper a comprehension of to_list calls: a module function, a method of AnsiSetting, or a def nested in to_list"""
+    h = m.funcs.get(name) or m.funcs.get('AnsiSetting.%s' % name)
+    if h is not None:
+        return h
+    for n in tl.node.body:
+        if isinstance(n, ast.FunctionDef) and n.name == name:
+            return _LocalHelper(n)
+    return None
+
+
+def _own_returns(f):
+    """Return statements of f itself (not of defs nested in it)"""
+    out = []
+    stack = list(f.node.body)
+    while stack:
+        n = stack.pop()
+        if isinstance(n, (ast.FunctionDef, ast.AsyncFunctionDef, ast.Lambda, ast.ClassDef)):
+            continue
+        if isinstance(n, ast.Return):
+            out.append(n)
+        stack.extend(ast.iter_child_nodes(n))
+    return out
+
+
+
 def _tok_eval(e, env):
     """abstract value of a string expression: one of _TOK, or ('int', cls) for int(<token>) that succeeds; raises ValueError-marker / Undecided"""
     if isinstance(e, ast.Name) and e.id in env:
@@ -306,7 +345,7 @@ def P30(m, R):
                 e_ = comp.elt
                 h_ = None
                 if isinstance(e_, ast.Call) and len(e_.args) == 1 and not e_.keywords and call_name(e_) not in ('int', 'AnsiParam'):
-                    h_ = m.funcs.get(call_name(e_)) or m.funcs.get('AnsiSetting.%s' % call_name(e_))
+                    h_ = _conv_helper(m, tl, call_name(e_))
                 if h_ is not None:
                     ps_ = h_.own_params() if h_.self_name else h_.params
                     try:
